@@ -471,3 +471,7 @@ def replay_store_tf(obligation=None, model=None, meta=None):
                     'observed': 'dae.Tf[%d] (%s) = %r but the model declares the time constant %r' % (j, ss.dae.x_name[j], float(Tf[j]), float(T[j])),
                     'native_cmd': 'contracts/fn_sequence.py replay_store_tf'}
     return {'confirmed': False, 'tried': n}
+
+replay_rerun_after_alter.real_system = True       # drives the real program on stock inputs: a crash inside repository code is a confirmed failure
+
+replay_store_tf.real_system = True       # drives the real program on stock inputs: a crash inside repository code is a confirmed failure
